@@ -938,6 +938,20 @@ class HTTPResponse(BaseHTTPResponse):
                     # raised during streaming, so all calls with incorrect
                     # Content-Length are caught.
                     raise IncompleteRead(self._fp_bytes_read, self.length_remaining)
+            elif (
+                amt is None
+                and not read1
+                and not fp_closed
+                and self.enforce_content_length
+                and self.length_remaining is not None
+                and len(data) < self.length_remaining
+            ):
+                # http.client raises IncompleteRead from read() when it knows
+                # the length; it does not know a Content-Length in list form
+                # ("5, 5"), which _init_length() accepts, and reads to EOF.
+                raise IncompleteRead(
+                    self._fp_bytes_read + len(data), self.length_remaining - len(data)
+                )
             elif read1 and (
                 (amt != 0 and not data) or self.length_remaining == len(data)
             ):
